@@ -2,7 +2,7 @@
     complete, which is what lets a slot be located from the size alone.
     Statements only; proofs are in HeapProofs.v.  The model (HeapModel.v)
     transcribes src/heap.c and cstl_fls of src/common.c. *)
-From Cstl Require Import Prelude HeapModel HeapProofs.
+From Cstl Require Import Prelude HeapModel HeapProofs HeapLinks.
 Local Open Scope N_scope.
 
 (** cstl_fls, as coded (binary search with a 64-bit mask), is the position of
@@ -137,6 +137,27 @@ Proof. exact (clear_log_nodup h). Qed.
 Theorem C07_clear_result_init h : inv h -> snd (clear h) = h_init.
 Proof. exact (clear_result_init h). Qed.
 
+(** cstl_heap_promote_child at the level of pointers (HeapLinks.v transcribes
+    its statements over a memory of {p, l, r} nodes): on a well-formed linked
+    tree with distinct nodes it produces a well-formed linked tree -- every
+    parent pointer and the root pointer right -- that represents the tree with
+    the two elements exchanged, which is what the functional model does in
+    sift_up and sift_down.  [rep m None root t]: [t] is laid out in [m] from
+    [root] with consistent parent pointers, element ids being addresses. *)
+Theorem C07_promote_left_child m root c0 cl cx cr px sib :
+  NoDup (ids (zip c0 (T (T cl cx cr) px sib))) ->
+  rep m None root (zip c0 (T (T cl cx cr) px sib)) ->
+  exists m' root', promote m root (eid cx) = Some (m', root') /\
+                   rep m' None root' (zip c0 (T (T cl px cr) cx sib)).
+Proof. exact (promote_left_refines m root c0 cl cx cr px sib). Qed.
+
+Theorem C07_promote_right_child m root c0 cl cx cr px sib :
+  NoDup (ids (zip c0 (T sib px (T cl cx cr)))) ->
+  rep m None root (zip c0 (T sib px (T cl cx cr))) ->
+  exists m' root', promote m root (eid cx) = Some (m', root') /\
+                   rep m' None root' (zip c0 (T sib cx (T cl px cr))).
+Proof. exact (promote_right_refines m root c0 cl cx cr px sib). Qed.
+
 (** Non-vacuity: a concrete history with duplicate keys (0 0 1 1 2 2) goes
     through every kind of operation and ends in a non-trivial state that
     satisfies the hypotheses of the theorems above. *)
@@ -156,6 +177,26 @@ Example C07_example_fls :
   map fls [1; 3; 196608; 1515870810; 18446744073709551615] = [0; 1; 17; 30; 63]%Z.
 Proof. vm_compute. reflexivity. Qed.
 
+(** Non-vacuity of the pointer-level theorems: a concrete three-node memory
+    (node 0 the root with children 1 and 2) is a well-formed layout, and
+    promoting node 2 (the right child) re-links it into the root. *)
+Example C07_example_promote :
+  let e := fun i => mkE i 0 in
+  let m : pmem := fun a =>
+    match a with
+    | 0 => mkN None (Some 1) (Some 2)
+    | 1 => mkN (Some 0) None None
+    | 2 => mkN (Some 0) None None
+    | _ => mkN None None None
+    end%nat in
+  rep m None (Some 0%nat) (T (T E (e 1%nat) E) (e 0%nat) (T E (e 2%nat) E)) /\
+  match promote m (Some 0%nat) 2 with
+  | Some (m', r) => r = Some 2%nat /\ m' 2%nat = mkN None (Some 1%nat) (Some 0%nat) /\
+                    m' 0%nat = mkN (Some 2%nat) None None /\ m' 1%nat = mkN (Some 2%nat) None None
+  | None => False
+  end.
+Proof. cbn. repeat split; reflexivity. Qed.
+
 Print Assumptions C07_fls_spec.
 Print Assumptions C07_fls_zero.
 Print Assumptions C07_complete_positions.
@@ -173,3 +214,5 @@ Print Assumptions C07_run_safe.
 Print Assumptions C07_clear_log_perm.
 Print Assumptions C07_clear_log_nodup.
 Print Assumptions C07_clear_result_init.
+Print Assumptions C07_promote_left_child.
+Print Assumptions C07_promote_right_child.
